@@ -40,7 +40,10 @@ CONSTANTS
   JStep, JTag,   \* step name and numeric tag of the job name (ROLLBACK priority rule)
   MaxGen,    \* how many times a job may be requested (1 + re-schedules after ROLLBACK)
   MaxDup,    \* how many duplicated notifications (same status again) per job
-  Engine     \* "engine": statuses the engine/failure manager send; "contract": + FIREABLE->FAILED/CANCELLED
+  Engine,    \* "engine": statuses the engine/failure manager send; "contract": + FIREABLE->FAILED/CANCELLED
+  GateUsage  \* TRUE: the storage-usage measurement of _free_resources (connector I/O under the lock) is a suspension
+             \* point of its own: the notifier parks holding the lock (status already changed, nothing released yet)
+             \* and the environment action UsageDone completes the body; FALSE: notify_status is one atomic section
 
 VARIABLES st, act
 vars == <<st, act>>
@@ -163,11 +166,15 @@ RemoveFirst(q, x) ==
        IN SubSeq(q, 1, i - 1) \o SubSeq(q, i + 1, Len(q))
 
 \* body of notify_status under the lock
-NotifyBody(S, j, s) ==
-  LET prev == S.alloc[j].status
-      S1 == [S EXCEPT !.alloc[j].status = s]
-      S2 == IF s # prev /\ (prev = "RUNNING" \/ (prev = "FIREABLE" /\ s # "RUNNING")) THEN Free(S1, j) ELSE S1
-      S3 == IF s = "ROLLBACK"
+NeedsFree(S, j, s) ==
+  LET prev == S.alloc[j].status IN s # prev /\ (prev = "RUNNING" \/ (prev = "FIREABLE" /\ s # "RUNNING"))
+\* the release reaches get_storage_usages -> connector.run only when the job has directories on the location,
+\* i.e. on locations with hardware (all locations of a deployment are of one kind)
+NeedsIO(S, j, s) ==
+  GateUsage /\ NeedsFree(S, j, s) /\ S.alloc[j].locs # <<>> /\ LKind[S.alloc[j].locs[1]] = "hw"
+\* after the release: ROLLBACK list removal, notify_all, return
+NotifyTail(S2, j, s) ==
+  LET S3 == IF s = "ROLLBACK"
               THEN [S2 EXCEPT !.lj = [l \in Locs |-> IF l \in SeqSet(S2.alloc[j].locs) THEN RemoveFirst(@[l], j) ELSE @[l]],
                               !.alloc[j].locs = <<>>]
               ELSE S2
@@ -177,6 +184,10 @@ NotifyBody(S, j, s) ==
                 !.tpc = [jj \in Jobs |-> [g \in 1..MaxGen |-> [t \in 1..3 |->
                             IF <<"t", jj, g, t>> \in SeqSet(woken) THEN "lockq" ELSE @[jj][g][t]]]],
                 !.npend[j] = None]
+NotifyBody(S, j, s) ==
+  LET S1 == [S EXCEPT !.alloc[j].status = s]
+      S2 == IF NeedsFree(S, j, s) THEN Free(S1, j) ELSE S1
+  IN NotifyTail(S2, j, s)
 
 \* release of the lock: the head of the FIFO runs until it blocks
 RECURSIVE Grant(_)
@@ -188,7 +199,9 @@ Grant(S) ==
             THEN IF S1.sched[h[2]][h[3]]
                    THEN Grant([S1 EXCEPT !.tpc[h[2]][h[3]][h[4]] = "done"])        \* `if job_context.scheduled: return`
                    ELSE [S1 EXCEPT !.lock = h, !.tpc[h[2]][h[3]][h[4]] = "io"]     \* parked in get_available_locations
-            ELSE Grant(NotifyBody(S1, h[2], h[3]))
+            ELSE IF NeedsIO(S1, h[2], h[3])
+                   THEN [S1 EXCEPT !.lock = h, !.alloc[h[2]].status = h[3]]         \* parked in get_storage_usages
+                   ELSE Grant(NotifyBody(S1, h[2], h[3]))
 Arrive(S, entries) == LET S1 == [S EXCEPT !.lockq = @ \o entries] IN IF S.lock = <<>> THEN Grant(S1) ELSE S1
 
 \* ---------------------------------------------------------------------------------------------
@@ -207,7 +220,8 @@ NotifyEn(S, j, s) ==
   /\ S.npend[j] = None
   /\ \/ s \in NextStatus(S.alloc[j].status) /\ (s \in {"RECOVERY", "ROLLBACK"} => S.gen[j] < MaxGen)
      \/ s = S.alloc[j].status /\ S.dups[j] < MaxDup
-EvalEn(S) == S.lock # <<>>
+EvalEn(S) == S.lock # <<>> /\ S.lock[1] = "t"
+UseEn(S) == S.lock # <<>> /\ S.lock[1] = "n"
 
 Request(j) ==
   /\ ReqEn(st, j)
@@ -232,17 +246,26 @@ EvalDone ==
                 ELSE Grant([st EXCEPT !.tpc[j][g][t] = "cond", !.condq = Append(@, h)])
      /\ act' = [name |-> "EvalDone", j |-> j, s |-> None]
 
+\* completion of the usage measurement of the notifier that holds the lock: release, ROLLBACK removal, notify_all
+UsageDone ==
+  /\ UseEn(st)
+  /\ LET h == st.lock  j == h[2]  s == h[3] IN
+     /\ st' = Grant(NotifyTail(Free(st, j), j, s))
+     /\ act' = [name |-> "UsageDone", j |-> j, s |-> s]
+
 Init == st = Init0 /\ act = [name |-> "Init", j |-> None, s |-> None]
 Next == \/ \E j \in Jobs : Request(j)
         \/ \E j \in Jobs, s \in {"RUNNING", "COMPLETED", "FAILED", "CANCELLED", "RECOVERY", "ROLLBACK"} : Notify(j, s)
         \/ EvalDone
-AnyEnabled(S) == \/ EvalEn(S) \/ \E j \in Jobs : ReqEn(S, j)
+        \/ UsageDone
+AnyEnabled(S) == \/ EvalEn(S) \/ UseEn(S) \/ \E j \in Jobs : ReqEn(S, j)
                  \/ \E j \in Jobs, s \in {"RUNNING", "COMPLETED", "FAILED", "CANCELLED", "RECOVERY", "ROLLBACK"} : NotifyEn(S, j, s)
 
 Spec == Init /\ [][Next]_vars
 \* fairness for C12: the connector answers, every fireable job is started, every running job terminates
 FairSpec == /\ Spec
             /\ WF_vars(EvalDone)
+            /\ WF_vars(UsageDone)
             /\ \A j \in Jobs : WF_vars(Notify(j, "RUNNING"))
             /\ \A j \in Jobs : WF_vars(Notify(j, "COMPLETED"))
             /\ \A j \in Jobs : WF_vars(Request(j))
